@@ -224,7 +224,9 @@ class Paraxial:
         '''
         _, ua = self.marginal_ray()
         n = self.optic.n()
-        mag = n[0]*ua[0]/(n[-1]*ua[-1])
+        # every mirror reverses the sign of the index for the light behind it
+        num_mirrors = sum(surf.is_reflective for surf in self.surfaces.surfaces)
+        mag = n[0]*ua[0]/((-1)**num_mirrors*n[-1]*ua[-1])
         return mag[0]
 
     def invariant(self):
